@@ -16,7 +16,7 @@ HARNESSES = {
     'comb': {'crate': 'flussab', 'file': 'flussab/src/parser.rs', 'overlay': 'kani/comb.rs', 'complete': True,
              'harnesses': ['or_give_up_table', 'optional_table', 'matches_table', 'or_parse_table', 'or_always_parse_table', 'and_then_table',
                            'and_also_table', 'and_do_table', 'map_table', 'map_err_table', 'err_into_table', 'from_result_table',
-                           'result_err_into_table', 'result_and_also_table', 'result_and_do_table'],
+                           'result_err_into_table', 'result_and_also_table', 'result_and_do_table', 'zst_table'],
              'what': 'every combinator x every input case x every closure outcome with call counters (symbolic u8 payloads, loop-free: complete)'},
 }
 
